@@ -65,6 +65,15 @@ def cases(draw):
                        'flags': [draw(st.sampled_from([1, 4])) for _ in range(nf)],
                        'rel': [draw(gen.logfloat(1e-3, 0.5)) for _ in range(nf)]})
     c['plants'] = plants
+    # one of the OTHER models may emit nothing at all (zero flux everywhere: its fits are undefined and it must simply not
+    # get in the way of the planted model)
+    n_ = len(pkg['names'])
+    if n_ >= 2 and draw(st.integers(0, 3)) == 0:
+        z = draw(st.integers(0, n_ - 1))
+        if all(pl['m'] != z for pl in plants):
+            pkg['flux'][z] = [[0. for _ in row] for row in pkg['flux'][z]]
+            pkg['err'][z] = [[0. for _ in row] for row in pkg['err'][z]]
+            c['dead_model'] = z
     # cube packages: one more band may be given to fit() as a wavelength (a tabulated one) next to the named filters, and the
     # cube may tabulate its apertures in pc or cm
     if c['format'] == 'v2' and draw(st.booleans()):
@@ -77,7 +86,7 @@ def cases(draw):
     return c
 
 
-def prepare(case, plant, idx, conv, k, grid, float32):
+def prepare(case, plant, idx, conv, k, grid, float32, dead=frozenset()):
     """-> ('skip', label) or ('ok', dict): planted photometry from the reference + what must be recovered"""
     pkg, filters = case['pkg'], case['filters']
     names = pkg['names']
@@ -114,11 +123,11 @@ def prepare(case, plant, idx, conv, k, grid, float32):
     if pkg['apdep']:
         if all(kk == 0. for kk in k):
             return 'skip', 'zero_k_skipped'
-        refs = [of.Ref3D(bands, [conv[j][m] for j in range(nf)], pkg['apertures'], case['theta'], k, lo, hi, grid)
-                for m in range(len(names))]
+        refs = dict((m, of.Ref3D(bands, [conv[j][m] for j in range(nf)], pkg['apertures'], case['theta'], k, lo, hi, grid))
+                    for m in range(len(names)) if m not in dead)
         if float32:
             slack0 = of.float32_slack(bands, refs[m0].rows[i0], k, av0, 0.)
-        for m in range(len(names)):
+        for m in sorted(refs):
             for i in range(len(grid)):
                 if m == m0 and i == i0:
                     continue
@@ -131,12 +140,13 @@ def prepare(case, plant, idx, conv, k, grid, float32):
                           for b, kk, L in zip(bands, k, refs[m0].rows[i0]) if b[0] == 'fit') / swkk
         sc_tol = 1e-10 * max(1., abs(sc0))
     else:
-        refs = [of.Ref2D(bands, [math.log10(conv[j][m][0]) for j in range(nf)], k, lo, hi) for m in range(len(names))]
+        refs = dict((m, of.Ref2D(bands, [math.log10(conv[j][m][0]) for j in range(nf)], k, lo, hi))
+                    for m in range(len(names)) if m not in dead)
         if refs[m0].singular or refs[m0].cond > 1e8:
             return 'skip', 'singular_skipped'
         if float32:
             slack0 = of.float32_slack(bands, refs[m0].logmodel, k, av0, sc0)
-        for m in range(len(names)):
+        for m in sorted(refs):
             if m != m0 and float(refs[m].S_star) <= 1e-3 + 10 * slack0:
                 return 'skip', 'degenerate_skipped'
         a, b, dd = float(refs[m0].m11), float(refs[m0].m12), float(refs[m0].m22)
@@ -189,8 +199,11 @@ def run_case(case, ctx):
         conv.append([[row[w_] for row in mod] for mod in spkg['flux']])
         labels.add('one_band_given_as_wavelength')
         labels.add('cube_apertures_in_' + pkg.get('cube_ap_unit', 'AU'))
-    if any(v <= 0. for cj in conv for row in cj for v in row):
+    dead = frozenset(m for m in range(len(names)) if any(v <= 0. for cj in conv for v in cj[m]))
+    if dead - {case.get('dead_model')}:
         return labels | {'zero_flux_filter_skipped'}, False
+    if dead:
+        labels.add('a_model_without_any_flux')
     lo, hi = case['av_range']
     grid = None
     if pkg['apdep']:
@@ -204,7 +217,7 @@ def run_case(case, ctx):
         dr = [1., 2.] * u.kpc
     plants = []
     for idx, plant in enumerate(case['plants']):
-        status, res = prepare(case, plant, idx, conv, k, grid, float32)
+        status, res = prepare(case, plant, idx, conv, k, grid, float32, dead)
         if status == 'skip':
             labels.add(res)
         else:
